@@ -191,3 +191,106 @@ def run (s : State) : List TEv → R State
     run s' es
 
 end NLE.Cand
+
+/-
+  `PromptAcc`: ties the watcher assumption of the `Prompt` model (C10 promptness) to implementation traces.  For every
+  takeover-enabled follower it tracks the owner id the follower has already observed (watch notifications, reads), and
+  requires: a notification that names an already known owner of strictly lower priority is followed by an acquisition
+  attempt (a Create call) of the follower — at once, or as soon as a running attempt of the same instance has finished
+  (≤ 3L).  Runs on scenarios that promise a responsive store, no outside writer and latencies up to a tenth of the
+  heartbeat interval.
+-/
+namespace NLE.PromptAcc
+
+structure PInst where
+  cfg : InstCfg
+  running : Bool := false
+  flag : Bool := false
+  cut : Bool := false
+  known : Option Nat := none
+  owed : Option Nat := none          -- a Create call is due by then
+  deriving Repr, Inhabited
+
+structure State where
+  lat : Option Nat := none
+  insts : List PInst := []
+  ops : List (Nat × Nat × OpKind) := []
+  starts : List (Nat × Nat) := []
+  ended : Bool := false
+  deriving Repr, Inhabited
+
+abbrev R := Except String
+def reject {α} (msg : String) : R α := .error msg
+
+def State.get (s : State) (i : Nat) : Option PInst := s.insts.find? (·.cfg.id = i)
+def State.set (s : State) (x : PInst) : State := { s with insts := s.insts.map fun y => if y.cfg.id = x.cfg.id then x else y }
+
+def step (s : State) (te : TEv) : R State :=
+  if s.ended then pure s else
+  match te.ev with
+  | .end_ => pure { s with ended := true }
+  | .inst c => pure { s with insts := s.insts ++ [{ cfg := c }] }
+  | .hyp resp noOut _ _ _ maxLat faultsEnd =>
+    pure { s with lat := if resp ∧ noOut ∧ maxLat > 0 ∧ faultsEnd = 0 then some maxLat else none }
+  | ev =>
+    match s.lat with
+    | none => pure s
+    | some L => do
+    let t := te.t
+    -- deadlines first
+    match s.insts.find? (fun x => match x.owed with | some d => decide (d < t) | none => false) with
+    | some x => reject s!"instance {x.cfg.id} (priority {x.cfg.prio}, takeover enabled): a notification named the known lower-priority owner, but no acquisition attempt followed by {repr x.owed} (now {t})"
+    | none =>
+    match ev with
+    | .api n i .start => pure { s with starts := (n, i) :: s.starts }
+    | .apiRet n i r =>
+      if s.starts.any (· == (n, i)) then
+        let s := { s with starts := s.starts.filter (· != (n, i)) }
+        match s.get i, r with
+        | some x, .ok => pure (s.set { x with running := true, flag := false, known := none, owed := none })
+        | _, _ => pure s
+      else pure s
+    | .api _ i .stop | .api _ i (.stopctx _ _ _ _) =>
+      match s.get i with
+      | some x => pure (s.set { x with running := false, owed := none })
+      | none => pure s
+    | .crash i | .partition i _ =>
+      match s.get i with
+      | some x => pure (s.set { x with cut := true, owed := none })
+      | none => pure s
+    | .flag i _ il _ _ =>
+      match s.get i with
+      | some x => pure (s.set { x with flag := il, owed := none, known := if il then some i else x.known })
+      | none => pure s
+    | .call op i kind _ _ _ =>
+      let s := { s with ops := (op, i, kind) :: s.ops }
+      match kind, s.get i with
+      | .create, some x => pure (s.set { x with owed := none })
+      | _, _ => pure s
+    | .ret op r =>
+      match s.ops.find? (·.1 = op) with
+      | none => pure s
+      | some (_, i, kind) =>
+        let s := { s with ops := s.ops.filter (·.1 ≠ op) }
+        match kind, r, s.get i with
+        | .get, .ok _ (some (.own o _ _)), some x => pure (s.set { x with known := if x.flag then x.known else some o })
+        | _, _, _ => pure s
+    | .wev _ i _ v =>
+      match s.get i, v with
+      | some x, some (.own o _ prio) =>
+        if x.flag ∨ ¬ x.running ∨ x.cut then pure s
+        else
+          let eligible := x.cfg.takeover && decide (x.cfg.prio > prio) && o != i && decide (10 * L ≤ x.cfg.hb)
+          if x.known = some o ∧ eligible then
+            pure (s.set { x with owed := match x.owed with | some d => some d | none => some (t + 3 * L) })
+          else pure (s.set { x with known := some o })
+      | _, _ => pure s
+    | _ => pure s
+
+def run (s : State) : List TEv → R State
+  | [] => pure s
+  | e :: es => do
+    let s' ← step s e
+    run s' es
+
+end NLE.PromptAcc
